@@ -439,6 +439,22 @@ func (in *Interp) witness(model map[string]uint64) []WitnessVal {
 	return ws
 }
 
+// modelSatisfies re-evaluates the path condition (and extra) under a solver model; terms with uninterpreted functions
+// cannot be evaluated and count as satisfied. Guards against solver/model-extraction errors before anything is reported.
+func (in *Interp) modelSatisfies(model map[string]uint64, extra *Term) bool {
+	memo := map[*Term]uint64{}
+	chk := func(t *Term) bool {
+		v, ok := Eval(t, model, memo)
+		return !ok || v == 1
+	}
+	for _, c := range in.path.pc {
+		if !chk(c) {
+			return false
+		}
+	}
+	return extra == nil || chk(extra)
+}
+
 func (in *Interp) report(kind, msg, site string, model map[string]uint64) {
 	p := in.path
 	v := &Violation{Harness: in.harness, Kind: kind, Msg: msg, Site: site, Tags: append([]string(nil), p.tags...),
@@ -473,6 +489,10 @@ func (in *Interp) assertTerm(c *Term, msg, site string) {
 		in.report("assert", msg, site, in.path.model)
 	} else {
 		r := in.checkSat(nc)
+		if r == Sat && !in.modelSatisfies(in.lastModel, nc) {
+			in.path.unknowns = append(in.path.unknowns, "assert "+msg+": solver returned a model that does not satisfy the query (discarded)")
+			r = Unknown
+		}
 		switch r {
 		case Sat:
 			in.report("assert", msg, site, in.lastModel)
